@@ -25,22 +25,79 @@ class Missing(Exception):
 def die(msg):
     raise Missing(msg)
 
+import functools
+@functools.lru_cache(maxsize=256)
+def lex_rust(src):
+    """One left-to-right pass over Rust source that knows string, raw-string, byte-string and char literals, `//` comments and NESTED
+    `/* */` comments.  Returns (text, masked): `text` is the source with every comment replaced by one space; `masked` has the same
+    length as `text` with the CONTENTS of every string / char literal replaced by `_` (so braces, quotes, `//`, `#[cfg(test)]` inside a
+    literal can never be taken for structure).  All structural searches (function headers, brace matching, test-module cutting) run on
+    `masked`; what is handed to the translators is sliced out of `text` at the same offsets."""
+    out, msk = [], []
+    i, n = 0, len(src)
+    def emit(t, m=None):
+        out.append(t); msk.append(t if m is None else m)
+    while i < n:
+        c = src[i]
+        if c == '/' and i + 1 < n and src[i + 1] == '/':
+            j = src.find('\n', i)
+            j = n if j < 0 else j
+            emit(' '); i = j
+        elif c == '/' and i + 1 < n and src[i + 1] == '*':
+            depth, j = 1, i + 2
+            while j < n and depth:
+                if src.startswith('/*', j): depth += 1; j += 2
+                elif src.startswith('*/', j): depth -= 1; j += 2
+                else: j += 1
+            emit(' '); i = j
+        elif c == '"' or (c in 'br' and re.match(r'(?:b?r#*"|b")', src[i:i + 12]) and (i == 0 or not (src[i - 1].isalnum() or src[i - 1] == '_'))):
+            m = re.match(r'b?r(#*)"', src[i:])
+            if m:                                  # raw string: ends at `"` followed by the same number of `#`
+                end = src.find('"' + m.group(1), i + m.end())
+                end = n if end < 0 else end + 1 + len(m.group(1))
+                body = src[i:end]
+                emit(body, body[:m.end()] + '_' * max(0, len(body) - m.end() - 1 - len(m.group(1))) + body[len(body) - 1 - len(m.group(1)):] if len(body) > m.end() else body)
+                i = end
+            else:
+                j = i + (2 if c == 'b' else 1)
+                while j < n and src[j] != '"':
+                    j += 2 if src[j] == '\\' else 1
+                j = min(j + 1, n)
+                body = src[i:j]
+                k = 2 if c == 'b' else 1
+                emit(body, body[:k] + '_' * max(0, len(body) - k - 1) + body[-1:])
+                i = j
+        elif c == "'":
+            m = re.match(r"'(?:\\(?:x[0-9a-fA-F]{2}|u\{[0-9a-fA-F_]{1,8}\}|.)|[^'\\\n])'", src[i:])
+            if m:                                  # a char literal (a lifetime has no closing quote right after one character)
+                body = m.group(0)
+                emit(body, "'" + '_' * (len(body) - 2) + "'"); i += len(body)
+            else:
+                emit(c); i += 1
+        else:
+            emit(c); i += 1
+    return ''.join(out), ''.join(msk)
+
 def strip_comments(src):
-    src = re.sub(r'/\*.*?\*/', '', src, flags=re.S)
-    src = re.sub(r'//[^\n]*', '', src)
-    return src
+    return lex_rust(src)[0]
+
+def mask_literals(text):
+    """`text` (comments already removed) with the contents of its string / char literals masked; same length"""
+    t, m = lex_rust(text)
+    return m if len(m) == len(text) else text
 
 def cut_tests(src):
-    # drop every `#[cfg(test)] mod name { ... }` block (brace-balanced), keep whatever follows it
+    # drop every `#[cfg(test)] mod name { ... }` block (brace-balanced), keep whatever follows it; structure is read off the masked text
     while True:
-        m = re.search(r'#\[cfg\(test\)\]\s*(#\[[^\]]*\]\s*)*mod\s+\w+\s*\{', src)
+        msk = mask_literals(src)
+        m = re.search(r'#\[cfg\(test\)\]\s*(#\[[^\]]*\]\s*)*mod\s+\w+\s*\{', msk)
         if not m:
             return src
         depth = 0
         end = len(src)
-        for j in range(m.end() - 1, len(src)):
-            if src[j] == '{': depth += 1
-            elif src[j] == '}':
+        for j in range(m.end() - 1, len(msk)):
+            if msk[j] == '{': depth += 1
+            elif msk[j] == '}':
                 depth -= 1
                 if depth == 0:
                     end = j + 1
@@ -90,27 +147,38 @@ class Consts:
         e = re.sub(r'\b[A-Z][A-Z0-9_]*\b', sub, e)
         if not re.fullmatch(r'[\d\sxXa-fA-F_+*()\-/]+', e):
             die("unsupported constant expression %r" % expr)
-        return int(eval(e.replace('_', ''), {"__builtins__": {}}))
+        v = eval(re.sub(r'(?<!/)/(?!/)', '//', e.replace('_', '')), {"__builtins__": {}})      # Rust integer division
+        if not isinstance(v, int) or v < 0 or v >= 1 << 64:
+            die("constant expression %r is not an unsigned integer" % expr)
+        return v
     def scalar(self, src, name, what):
-        m = re.search(r'(?:pub(?:\([^)]*\))?\s+)?const\s+' + name + r'\s*:\s*(?:u8|u16|u32|u64|usize)\s*=\s*([^;]+);', src)
-        if not m:
+        ms = list(re.finditer(r'(?:pub(?:\([^)]*\))?\s+)?const\s+' + name + r'\s*:\s*(u8|u16|u32|u64|usize)\s*=\s*([^;]+);', src))
+        if not ms:
             die("scalar constant %s not found in %s" % (name, what))
-        v = self.eval(m.group(1))
+        if len(ms) != 1:
+            die("%d definitions of the constant %s in %s" % (len(ms), name, what))
+        m = ms[0]
+        v = self.eval(m.group(2))
+        if v >= 1 << {"u8": 8, "u16": 16, "u32": 32, "u64": 64, "usize": 64}[m.group(1)]:
+            die("constant %s does not fit its type %s in %s" % (name, m.group(1), what))
         self.vals[name] = v
         return v
 
 def fn_body(src, name, what, unique=False):
-    ms = list(re.finditer(r'fn\s+' + name + r'\s*(?:<[^>]*>)?\s*\(', src))
+    msk = mask_literals(src)
+    ms = list(re.finditer(r'\bfn\s+(?:r#)?' + name + r'\b', msk))
     if not ms:
         die("function %s not found in %s" % (name, what))
     if unique and len(ms) != 1:
         die("%d functions named %s in %s (a tied function must be the only one of its name there)" % (len(ms), name, what))
     m = ms[0]
-    i = src.index('{', m.end())
+    if 'r#' in m.group(0):
+        die("function %s is written with a raw identifier in %s" % (name, what))
+    i = msk.index('{', m.end())
     depth = 0
-    for j in range(i, len(src)):
-        if src[j] == '{': depth += 1
-        elif src[j] == '}':
+    for j in range(i, len(msk)):
+        if msk[j] == '{': depth += 1
+        elif msk[j] == '}':
             depth -= 1
             if depth == 0:
                 return src[i:j + 1]
@@ -119,6 +187,7 @@ def fn_body(src, name, what, unique=False):
 def body_span(text, paren_open):
     """for a `fn name(` whose '(' is at paren_open: (start, end) of the body braces, or None for a declaration without body.
     A `;` inside the parameter list or the return type (`[u8; N]`) is not the end of a declaration."""
+    text = mask_literals(text)
     depth = 0
     j = paren_open
     n = len(text)
@@ -457,14 +526,18 @@ def main():
     # "facade method = the half's method on the half it owns", "every constructor = new", "the three expansions hash (name, key,
     # client seed, server seed) with the seeds in these argument positions" is about what the source says now
     def impl_block(text, header):
-        m = re.search(header, text)
-        if not m:
+        msk = mask_literals(text)
+        ms = list(re.finditer(header, msk))
+        if not ms:
             die("impl block %s not found" % header)
-        i = text.index("{", m.end() - 1)
+        if len(ms) != 1:
+            die("%d impl blocks match %s" % (len(ms), header))
+        m = ms[0]
+        i = msk.index("{", m.end() - 1)
         depth = 0
-        for j in range(i, len(text)):
-            if text[j] == "{": depth += 1
-            elif text[j] == "}":
+        for j in range(i, len(msk)):
+            if msk[j] == "{": depth += 1
+            elif msk[j] == "}":
                 depth -= 1
                 if depth == 0:
                     return text[i:j + 1]
@@ -595,6 +668,25 @@ def main():
                 a = re.sub(r"\s+", "", m.group(1))
                 if a != "test":
                     manual.append("cfg %s @%s" % (a, rel))
+            # things that change WHICH text is the code: macro definitions (a function or a `vec!` can come out of one), `#[path]`
+            # (the file read here may not be the module that is compiled), raw identifiers (`fn r#name` is `name`), aliases of the
+            # primitive integer types, and — for lib.rs — the module declarations themselves
+            mtext = mask_literals(text)
+            for m in re.finditer(r'\bmacro_rules!\s*(\w+)', mtext):
+                manual.append("macro %s @%s" % (m.group(1), rel))
+            for m in re.finditer(r'#\[path\b[^\]]*\]', mtext):
+                manual.append("path-attribute @%s" % rel)
+            for m in re.finditer(r'\br#(\w+)', mtext):
+                manual.append("raw-identifier %s @%s" % (m.group(1), rel))
+            for m in re.finditer(r'\btype\s+(\w+)\s*(?:<[^>]*>)?\s*=\s*([^;]+);', mtext):
+                if m.group(1) in ("u8", "u16", "u32", "u64", "usize", "Vec", "String") or re.fullmatch(r'\s*(u8|u16|u32|u64|u128|usize|i8|i16|i32|i64|isize)\s*', m.group(2)):
+                    manual.append("type-alias %s=%s @%s" % (m.group(1), re.sub(r"\s+", "", m.group(2)), rel))
+            for m in re.finditer(r'\buse\s+[^;]*\bas\s+(u8|u16|u32|u64|usize|Vec|vec)\b', mtext):
+                manual.append("use-as %s @%s" % (m.group(1), rel))
+            if rel == os.path.join("src", "lib.rs"):
+                for m in re.finditer(r'((?:#\[[^\]]*\]\s*)*)(pub(?:\([^)]*\))?\s+)?mod\s+(\w+)\s*([;{])', mtext):
+                    attrs = re.sub(r"\s+", "", text[m.start(1):m.end(1)]) if len(mtext) == len(text) else "?"
+                    manual.append("mod %s%s%s @%s" % (m.group(3), "" if m.group(4) == ";" else " (inline)", (" " + attrs) if attrs else "", rel))
             # a struct / enum with no derive attribute at all still matters (it then has none of the traits)
             for m in re.finditer(r'(?<!\]\n)(?<!\] )\b(?:pub(?:\([^)]*\))?\s+)?(?:struct|enum)\s+(\$?\w+)', text):
                 if not any(d.startswith(m.group(1) + " @" + rel + ":") for d in derives):
